@@ -412,12 +412,14 @@ func init() {
 	register(&Prop{
 		ID: "C17",
 		Rule: "each helper is run on 64-bit boundary and random values, special texts, and strings of length 0..300 drawn from digit / hex / sign+space / letter classes, and compared with independent encoders (value-exact for valid text, error or documented panic for malformed text; hex timestamps of more than 16 digits: an error, or the 8-byte value when only zeros are in front; signed decimal questions: an error, or the encoding of the number written); sequential histories per helper (valid, one fault, shorter/equal/longer valid, normalisation neighbours: leading zeros, blanks, case, sign); HexInputToOCRA on all 3^5 valid/invalid/empty combinations; decimal questions of every length 1..64 go through ParseDecimalChallengeRFC6287 + GenerateOCRA and must equal the RFC 6287 reference for numeric-challenge suites of every hash and digit count; " +
+			"a reduced differential against the same reference models also runs in a binary built for GOARCH=386 (32-bit int/uint; observed.evaluations_on_a_32bit_build); " +
 			"distinct_nontrivial counts distinct (helper, arguments) cases",
 		Run: func(c *Ctx) {
 			b := newBatcher(c, judgeHelper, 0)
 			c17Cases(c, b.add)
 			b.flush()
 			c17History(c)
+			runArch386(c)
 		},
 		Replay: func(c *Ctx, kind string, raw json.RawMessage) error {
 			return replayAs(raw, func(k helperCase) { judgeHelper(c, k) })
